@@ -1,5 +1,6 @@
 import SynKitModel.Reactor
 import SynKitModel.ReactorInv
+import SynKitModel.ReactorConcrete
 import SynKitProofs.ReactorLemmas
 import SynKitProofs.ReactorIso
 import SynKitProofs.ReactorInvLemmas
@@ -8,7 +9,9 @@ import SynKitProofs.Match
 # Linking the concrete glue model (C03) to the abstract reactor pipeline (C04, C05, C11)
 
 Helper lemmas only; the property-level corollaries live in `Props/C04.lean`, `Props/C05.lean`,
-`Props/C11.lean`.
+`Props/C11.lean`.  The executable definitions the lemmas are about (`noMap`, `orient`, `itsSel`, `ItsEquiv`,
+`render`, `concrete`) live in the model file `SynKitModel/ReactorConcrete.lean` (same namespace, same names),
+so that the driver runs the very term the theorems speak about.
 
 * §1 relabelling of matches (`get?`, `preimage`, `landsOn` under `relabelHost f ∘ relabelPat π`);
 * §2 `glue_relabel`: the concrete `_glue_graph` model is equivariant under renumbering host and
@@ -145,10 +148,6 @@ theorem glue_relabel {f π : Nat → Nat} (hf : Function.Injective f) (hπ : Fun
     exact glueNewEdge_relabel hf hπ host m te
 
 /-! ## §3 the `atom_map` attribute written by `its_decompose` / `_invert_template` -/
-
-/-- Erase `atom_map` from every node. -/
-def noMap (G : LGraph) : LGraph :=
-  { nodes := G.nodes.map fun p => (p.1, Dict.erase p.2 "atom_map"), edges := G.edges }
 
 theorem noMap_relabel (G : LGraph) (π : Nat → Nat) : noMap (G.relabel π) = (noMap G).relabel π := by
   simp [noMap, LGraph.relabel, List.map_map, Function.comp_def]
@@ -332,9 +331,6 @@ theorem glue_noMap (host T : LGraph) (m : Mapping) : glue host (noMap T) m = glu
 
 /-! ## §4 orientation, and the concrete pipeline under relabelling -/
 
-/-- Backward application glues the inverted template. -/
-def orient (dir : Bool) (T : LGraph) : LGraph := if dir then invert T else T
-
 theorem noMap_orient_relabel (dir : Bool) (T : LGraph) (π : Nat → Nat) :
     noMap (orient dir (T.relabel π)) = (noMap (orient dir T)).relabel π := by
   cases dir
@@ -440,14 +436,6 @@ theorem glue_wf (host T : LGraph) (m : Mapping) (hH : host.WF) (hT : T.WF)
 
 /-! ## §6 "the same reaction" on ITS graphs; rendering -/
 
-/-- What two ITS graphs are compared on: the label pair of every atom and the order pair of every
-bond (the selection the repaired pruning uses for the rule's automorphisms as well). -/
-def itsSel : Sel := { nodeKeys := ["typesGH"], edgeKeys := ["order"], hcountRule := false }
-
-/-- "The same reaction": equal, or well formed and isomorphic on `itsSel` (an equivalence relation on
-all graphs; on well-formed graphs it is isomorphism). -/
-def ItsEquiv (a b : LGraph) : Prop := a = b ∨ (a.WF ∧ b.WF ∧ ∃ m, IsIso itsSel a b m)
-
 theorem itsEquiv_equivalence : Equivalence ItsEquiv := by
   refine ⟨fun a => Or.inl rfl, ?_, ?_⟩
   · rintro a b (rfl | ⟨ha, hb, m, hm⟩)
@@ -465,9 +453,6 @@ theorem itsEquiv_relabel (G : LGraph) (hG : G.WF) (f : Nat → Nat) (hf : Functi
     ItsEquiv (G.relabel f) G :=
   Or.inr ⟨relabel_WF G hG f hf, hG, _,
     isIso_relabel_host itsSel G G hG _ f (fun _ _ _ _ e => hf e) (isIso_refl itsSel G hG)⟩
-
-/-- Rendering: an ill-formed graph renders to no reaction. -/
-def render (G : LGraph) : List LGraph := if G.WF then [G] else []
 
 theorem relabel_WF_iff (G : LGraph) (f : Nat → Nat) (hf : Function.Injective f) : (G.relabel f).WF ↔ G.WF := by
   refine ⟨?_, fun h => relabel_WF G h f hf⟩
@@ -927,29 +912,6 @@ theorem wfTemplate_orient_relabel_iff (dir : Bool) (T : LGraph) (π : Nat → Na
   rw [← wfTemplate_noMap_iff, noMap_orient_relabel, wfTemplate_relabel_iff _ π hπ, wfTemplate_noMap_iff]
 
 /-! ## §10 the concrete reactor (implicit path) as an instance of the abstract pipeline -/
-
-/-- The modelled implicit path of `SynReactor` as an instance of `ReactorInv.Reactor`:
-* pattern = reactant side of the oriented template (`its_decompose`), without the `atom_map`
-  attribute that nothing downstream reads (`allMonos_noMap`);
-* exhaustive search = the proven enumerator on `monoSel`; the component-aware search is a
-  parameter (`comp`), the fallback search is `searchBt` of the two;
-* pruning = the repaired `_prune_by_rule_automorphisms` (draft fix 0015): `pruneByAut` over the
-  automorphisms of the oriented template on `itsSel` (label pairs, order pairs);
-* glue = `_glue_graph`; outside the property's domain (substrate or template not well formed) and for
-  an ill-formed outcome nothing is rendered;
-* results are compared up to `ItsEquiv`. -/
-def concrete (maxGroup : Nat) (comp : LGraph → LGraph → List Mapping) : Reactor LGraph where
-  sel := monoSel
-  pattern := fun dir T => noMap (left (orient dir T))
-  search := fun s H P =>
-    match s with
-    | .all => allMonos monoSel H P
-    | .comp => comp H P
-    | .bt => searchBt (comp H P) (allMonos monoSel H P)
-  prune := fun dir T ms => pruneByAut maxGroup (left (orient dir T)).ids (auts itsSel (orient dir T)) ms
-  glue := fun dir host T m =>
-    if WFHost host ∧ WFTemplate (orient dir T) then render (glue host (orient dir T) m) else []
-  equiv := ItsEquiv
 
 theorem monoSel_no_atom_map : "atom_map" ∉ monoSel.nodeKeys := by decide
 
